@@ -73,6 +73,13 @@ func (dist *CategoricalDistribution) ScalarType() ScalarType {
 }
 
 func (dist *CategoricalDistribution) LogPdf(r Scalar, x ConstScalar) error {
+  if v := x.GetFloat64(); math.Floor(v) != v {
+    return fmt.Errorf("value `%f' is not an integer", v)
+  }
+  if v := x.GetFloat64(); v < 0.0 || v >= float64(dist.Theta.Dim()) {
+    r.SetFloat64(math.Inf(-1))
+    return nil
+  }
   r.Set(dist.Theta.At(int(x.GetFloat64())))
   return nil
 }
